@@ -63,6 +63,19 @@ To(m, d) ==
     /\ mods' = [mods EXCEPT ![m].dtype = d]
     /\ Log([a |-> "to", m |-> m, d |-> d]) /\ UNCHANGED <<defaultDtype, cache, calls, ver, memo>>
 
+\* copy.deepcopy(module): an independent module with the same configuration and buffer dtype
+Clone(m, m2) ==
+    /\ m # m2 /\ mods[m] # NoMod /\ NoActiveCall(m2)
+    /\ mods' = [mods EXCEPT ![m2] = mods[m]]
+    /\ Log([a |-> "clone", m |-> m, m2 |-> m2]) /\ UNCHANGED <<defaultDtype, cache, calls, ver, memo>>
+\* construct afresh (in the CURRENT default dtype) and load_state_dict() the buffers of m: the loaded copy keeps
+\* the dtype it was constructed with, values are converted
+Reload(m, m2) ==
+    /\ m # m2 /\ mods[m] # NoMod /\ NoActiveCall(m2)
+    /\ mods' = [mods EXCEPT ![m2] = [cfg |-> mods[m].cfg, dtype |-> defaultDtype]]
+    /\ cache' = cache \cup TablesOf(mods[m].cfg)
+    /\ Log([a |-> "reload", m |-> m, m2 |-> m2]) /\ UNCHANGED <<defaultDtype, calls, ver, memo>>
+
 \* a thread starts a call: the argument's dtype must match the buffers' (else torch raises, logged as such)
 CallBegin(t, m, x, d, g) ==
     /\ calls[t] = Idle /\ mods[m] # NoMod
@@ -97,6 +110,7 @@ Next ==
     /\ \/ \E d \in Dtypes : SetDefaultDtype(d)
        \/ \E m \in Mods, c \in Cfgs : Construct(m, c)
        \/ \E m \in Mods, d \in Dtypes : To(m, d)
+       \/ \E m \in Mods, m2 \in Mods : Clone(m, m2) \/ Reload(m, m2)
        \/ \E t \in Threads, m \in Mods, x \in Args, d \in Dtypes, g \in BOOLEAN : CallBegin(t, m, x, d, g)
        \/ \E t \in Threads : Stage(t) \/ CallReturn(t)
 Spec == Init /\ [][Next]_vars
